@@ -493,3 +493,85 @@ Definition chk_C14s (c : chain_case) (o : op) (ok : bool) (prev cur : val) : lis
   | _ => []
   end.
 Definition mon_C14s (c : chain_case) (obs : val) : list Z := (mon_C14 c obs ++ mon_steps chk_C14s c obs)%list.
+
+(* ---------- C10: the weight table moves exactly as the position operations say ----------
+   On the implementation's snapshots (the whole LP_WEIGHT_HISTORY is observed): a position operation changes the latest
+   weight of the position's owner and of the contract by calculate_weight(amount, position's duration) - saturating at zero
+   on removals, as update_weights does -, nothing else moves any latest weight, closing a closed position is never
+   accepted, and only addresses with an open position in an LP denom have weight entries for it. *)
+Definition snap_weights (s : val) : list (string * string * Z * Z) :=
+  map (fun v => (vgetS (vnth 0 v), vgetS (vnth 1 v), vgetZ (vnth 2 v), vgetZ (vnth 3 v))) (vlist (vnth 10 s)).
+Definition latest_w (ws : list (string * string * Z * Z)) (a d : string) : Z :=
+  snd (fold_left (fun (acc : Z * Z) (x : string * string * Z * Z) =>
+                    match x with (xa, xd, e, w) =>
+                      if String.eqb xa a && String.eqb xd d && (fst acc <? e) then (e, w) else acc end) ws (-1, 0)).
+Definition position_dur (p : val) : Z := vgetZ (vnth 2 p).
+Definition position_open (p : val) : bool := vgetB (vnth 3 p).
+Definition has_open_in (s : val) (a d : string) : bool :=
+  existsb (fun p => position_open p && String.eqb (position_owner p) a && String.eqb (fst (position_lp p)) d) (snap_positions s).
+Definition weight_pairs (s : val) : list (string * string) :=
+  nodup (fun x y => match string_dec (fst x) (fst y), string_dec (snd x) (snd y) with
+                    | left e1, left e2 => left (match x, y return fst x = fst y -> snd x = snd y -> x = y with (a, b), (c0, d0) => fun p q => f_equal2 pair p q end e1 e2)
+                    | right n, _ => right (fun h => n (f_equal fst h))
+                    | _, right n => right (fun h => n (f_equal snd h)) end)
+        (map (fun x => match x with (a, d, _, _) => (a, d) end) (snap_weights s)).
+Definition weights_unchanged_except (prev cur : val) (skip : string -> string -> bool) : bool :=
+  forallb (fun ad => skip (fst ad) (snd ad) ||
+                     (latest_w (snap_weights cur) (fst ad) (snd ad) =? latest_w (snap_weights prev) (fst ad) (snd ad)))
+          (weight_pairs prev ++ weight_pairs cur)%list.
+Definition only_stakers_have_weight (s : val) : bool :=
+  forallb (fun ad => String.eqb (fst ad) FM || has_open_in s (fst ad) (snd ad)) (weight_pairs s).
+Definition chk_C10 (c : chain_case) (o : op) (ok : bool) (prev cur : val) : list Z :=
+  if negb ok then [] else
+  let wp := snap_weights prev in let wc := snap_weights cur in
+  let inv := if only_stakers_have_weight cur then [] else [10] in
+  let moved (owner lp : string) (w : Z) (fill : bool) : bool :=
+      let t0 := latest_w wp FM lp in let u0 := latest_w wp owner lp in
+      let t1 := if fill then t0 + w else Z.max 0 (t0 - w) in
+      let u1 := if fill then u0 + w else (if has_open_in cur owner lp then Z.max 0 (u0 - w) else 0) in
+      (latest_w wc FM lp =? t1) && (latest_w wc owner lp =? u1) &&
+      weights_unchanged_except prev cur (fun a d => String.eqb d lp && (String.eqb a FM || String.eqb a owner)) in
+  (inv ++
+  match o with
+  | Tx sender target (WFm m) funds =>
+      if negb (String.eqb target FM) then [] else
+      match m with
+      | FmPosCreate _ dur r =>
+          match funds with
+          | [(lp, amt)] =>
+              let owner := match r with Some a => a | None => sender end in
+              match calculate_weight amt dur with Ok w => if moved owner lp w true then [] else [10] | Err _ => [10] end
+          | _ => [10]
+          end
+      | FmPosExpand id =>
+          match find_position prev id, funds with
+          | Some p, [(lp, amt)] =>
+              match calculate_weight amt (position_dur p) with
+              | Ok w => if moved (position_owner p) lp w true then [] else [10] | Err _ => [10] end
+          | _, _ => [10]
+          end
+      | FmPosClose id olp =>
+          match find_position prev id with
+          | Some p =>
+              if negb (position_open p) then [10] else
+              let amt := match olp with Some cn => amount_of cn | None => snd (position_lp p) end in
+              match calculate_weight amt (position_dur p) with
+              | Ok w => if moved (position_owner p) (fst (position_lp p)) w false then [] else [10] | Err _ => [10] end
+          | None => [10]
+          end
+      | FmPosWithdraw id _ =>
+          match find_position prev id with
+          | Some p =>
+              if position_open p then
+                match calculate_weight (snd (position_lp p)) (position_dur p) with
+                | Ok w => if moved (position_owner p) (fst (position_lp p)) w false then [] else [10] | Err _ => [10] end
+              else if weights_unchanged_except prev cur (fun _ _ => false) then [] else [10]
+          | None => [10]
+          end
+      | _ => if weights_unchanged_except prev cur (fun _ _ => false) then [] else [10]
+      end
+  | Tx _ target (WPm (PmProvide _ _ _ _ (Some _) _)) _ => []          (* locks through the pool manager: the invariant above *)
+  | Tx _ _ _ _ | BankSendOp _ _ _ | SetBlock _ | SetFault _ =>
+      if weights_unchanged_except prev cur (fun _ _ => false) then [] else [10]
+  end)%list.
+Definition mon_C10 := mon_steps chk_C10.
